@@ -139,6 +139,57 @@ theorem pending_removal_fires (c : Cfg) (n r : Nat) (sw : Bool) (e : Entry) (hr 
   | false => rfl
   | true => simp [closeOnPop_enabled]
 
+/-- **A started removal completes within `remove_tunnel_delay`, over every history.**  In every reachable state a live
+    entry (any table) with a removal pending has that removal strictly in the future and at most `remove_tunnel_delay`
+    away; since `pending_removal_fires` pops it when the clock gets there, an entry whose removal was started at time t
+    (by a destroy: `destroy_tears_down_*`, by the sweep or locally) is not live at any time ≥ t + remove_tunnel_delay —
+    a live entry under the same id then is a re-created one (its `rmAt` would otherwise contradict `now < r`). -/
+theorem pending_removal_within_delay (c : Cfg) (hp : 0 < c.period) (start : Nat) (evs : List (Nat × Ev))
+    (i : Nat) (e : Entry) (r : Nat) (hl : e.gone = false) (hr : e.rmAt = some r)
+    (hm : (i, e) ∈ (reach c start evs).relays ∨ (i, e) ∈ (reach c start evs).exits ∨
+          (i, e) ∈ (reach c start evs).circuits) :
+    (reach c start evs).now < r ∧ r ≤ (reach c start evs).now + c.delay := by
+  have h := (Inv.init c hp start).run hp evs
+  rcases hm with hm | hm | hm
+  · exact (h.relay (i, e) hm hl).1.rm r hr
+  · exact (h.exit (i, e) hm hl).1.rm r hr
+  · exact (h.circ (i, e) hm hl).1.rm r hr
+
+/-- **The code's `on_destroy` is the one the model implements** (table regenerated from the source on every run): the
+    if/elif chain has exactly the three guarded branches, in this order — relay pair with the signer being the peer of
+    the opposite route: remove the route under the id *passing the destroy on* and the paired route; exit socket whose
+    previous hop signed: remove it; circuit whose first hop signed: remove it — and nothing else removes anything.
+    `Node.onDestroy`, which `destroy_tears_down_relay/exit/circuit` are about, is written after this table. -/
+theorem destroy_branches_as_modelled :
+    Gen.destroyBranches = [("relayPair", [(1, false, true), (1, true, false)]), ("exit", [(2, false, false)]),
+                           ("circuit", [(0, false, false)])] := by decide
+
+/-- **The code refreshes `last_activity` exactly where the model does** (tables regenerated from the five anchored files):
+    the only `beat_heart()` calls are — `process_cell`: the route *opposite* to the one the cell arrived under, and the
+    circuit the cell was dispatched for; `on_data` / `on_pong`: that same circuit; `on_ping` / `on_test_request`: the exit
+    socket under the cell's id; `TunnelExitSocket.sendto`: the socket itself when a datagram really leaves — and
+    `last_activity` / `creation_time` are written by the constructor and (`last_activity` only) by `beat_heart`.
+    These are the updates `Node.onCell` / `Node.dispatch` / `Entry.exited` make; `only_received_cells_refresh` and
+    `cell_refreshes_only_its_circuit` are statements about them. -/
+theorem heartbeat_sites_as_modelled :
+    Gen.beatSites =
+      [("community.py", "on_data", "circuit", "self.circuits.get(circuit_id, None)"),
+       ("community.py", "on_ping", "exit_socket", "self.exit_sockets.get(payload.circuit_id)"),
+       ("community.py", "on_pong", "circuit", "self.circuits.get(payload.circuit_id)"),
+       ("community.py", "on_test_request", "exit_socket", "self.exit_sockets.get(circuit_id)"),
+       ("crypto.py", "process_cell", "circuit", "self.circuits.get(cell.circuit_id)"),
+       ("crypto.py", "process_cell", "this_relay", "self.relays.get(next_relay.circuit_id)"),
+       ("exit_socket.py", "sendto", "self", "self")] ∧
+    Gen.clockWrites =
+      [("tunnel.py", "__init__", "self.creation_time"), ("tunnel.py", "__init__", "self.last_activity"),
+       ("tunnel.py", "beat_heart", "self.last_activity")] := by decide
+
+/-- `do_ping` (condition regenerated from the source) never pings a closing circuit nor one without hops. -/
+theorem closing_circuits_not_pinged (h : Nat) (b : Bool) :
+    Gen.pingWanted true h = false ∧ Gen.pingWanted b 0 = false := by
+  unfold Gen.pingWanted
+  cases b <;> simp
+
 /-- **Abandon ⇒ quiet** (`Emits`, `Out.ok` are defined in Lemmas.lean).  Whatever the stimulus, and in every tick, the
     output log only grows, and every message appended is: a destroy / drop / refusal record, a create (message id 2) or
     the answer to a create (id 3), a cell naming a circuit id that is in one of the node's three tables *before* the
